@@ -72,7 +72,7 @@ def run(tier):
         "rule": "history + executable model, the model being the same code in a pristine state (fresh processor and TimeZone asked "
                 "only the one question). (1) every zone of both databases: every ordered pair of 59 arguments (mid-year of "
                 "1998..2051, three Jan-1 instants, a year-end second, the sentinel) x every ordered pair of {getUtcOffset, "
-                "getDeltaOffset, getAbbrev, getOffsetDateTime}, executed as op1(a); op2(b); op2(b) on a fresh object; (2) 2..4 "
+                "getDeltaOffset, getAbbrev, getOffsetDateTime}, executed as op1(a); op2(b); op2(b); op1(a) on a fresh object; (2) 2..4 "
                 "TimeZone values of different zones bound to one processor, seeded interleavings of 7 operations incl. printTo/"
                 "printShortTo as first operation; (3) Basic/ExtendedZoneManager<1..4> holding 2*SIZE+1 zones created by name/id/"
                 "index/info, seeded interleavings; (4) the Python ZoneSpecifier on freshly compiled tables: seeded sequences of instants and "
